@@ -1,3 +1,4 @@
+import Oidc.Proofs.CodeDiscovery
 import Oidc.Shapes
 import Oidc.Proofs.Discovery
 import Oidc.Facts
@@ -102,5 +103,24 @@ theorem text_NewMetadataCache_ok : Oidc.Shapes.Text_NewMetadataCache := by unfol
 theorem text_MetadataCache_Close_ok : Oidc.Shapes.Text_MetadataCache_Close := by unfold Oidc.Shapes.Text_MetadataCache_Close; rfl
 theorem text_MetadataCache_startAutoCleanup_ok : Oidc.Shapes.Text_MetadataCache_startAutoCleanup := by unfold Oidc.Shapes.Text_MetadataCache_startAutoCleanup; rfl
 theorem text_isValidSecureURL_ok : Oidc.Shapes.Text_isValidSecureURL := by unfold Oidc.Shapes.Text_isValidSecureURL; rfl
+
+/-! ## The same statements about the code itself: the functions below are `Oidc.Generated.Code`, which `tools/go2lean` translates
+    from /repo's source, statement by statement, on every run (meaning of the Go constructs: `Oidc/GoLib.lean`) -/
+open Oidc.Generated Oidc.CodeRefine in
+/-- main.go `discoverProviderMetadata` as translated, run against a virtual clock and a script of outcomes (what the harness drives
+    the real code with): it terminates, and returns the first healthy document — or, after five failed attempts with the pauses
+    1, 2, 4, 8, 16 s, an error — at exactly the instant and with exactly the rest of the script the model's `round` says; with
+    attempts bounded by the HTTP client's 15 s its own five-minute guard is never reached -/
+theorem code_discoverProviderMetadata (url : Go.Str) (hcl : Go.HTTPClient) (l : Go.Logger)
+    (script : List (Outcome Nat)) (t : Int) (fuel : Nat) (hf : 6 ≤ fuel) (hlen : 5 ≤ script.length)
+    (hd : ∀ o ∈ script, 0 ≤ durOf o ∧ durOf o ≤ 15000000000) :
+    ∃ err, Code.discoverProviderMetadata fuel scriptOps url hcl l (script, t) =
+        some (((round codeDF script t 0).2.1.map Go.Meta.mk, err), ((round codeDF script t 0).2.2.1, (round codeDF script t 0).1)) ∧
+      err.isNone = (round codeDF script t 0).2.1.isSome :=
+  discoverProviderMetadata_refines url hcl l script t fuel hf hlen hd
+
+open Oidc.Generated Oidc.CodeRefine in
+/-- the constants of the translated function are the ones the property's bound is computed from -/
+theorem code_discovery_constants : codeDF.maxRetries = 5 ∧ codeDF.baseDelay = 1000000000 ∧ codeDF.maxDelay = 30000000000 := by decide
 
 end Oidc.Props.C20
